@@ -14,7 +14,8 @@ import (
 var names = run.Names{Buckets: []string{"sums-a", "sums-b"}, Keys: []string{"k", "dir/k2", "K"}}
 
 func genCfg(thorough bool) prog.GenConfig {
-	max := 70000
+	// the quick tier reaches the 256 KiB hash-block size of the streaming checksum writer (±1)
+	max := 262145
 	if thorough {
 		max = 3 << 20
 	}
